@@ -298,6 +298,10 @@ func noMapOrderRule(P *Program, R *Report, rule string) {
 									if strings.Contains(idx, "rangekey("+mapDesc+")") {
 										continue // slot determined by the key itself
 									}
+									// filled in map order under a running counter and sorted before any use: like append + sort
+									if sortedAfterLoopV(P, fn, l, ia.X) {
+										continue
+									}
 									offenders = append(offenders, "indexed store into "+desc(ia.X)+" at "+P.Pos(y.Pos()))
 								}
 							}
@@ -586,6 +590,12 @@ func appendRootsInside(l *Loop, v ssa.Value, via *ssa.Phi, seen map[ssa.Value]bo
 // sortedAfterLoop: the slice accumulated in the map loop is passed to a sort function after the loop,
 // and every later use of it is dominated by that sort.
 func sortedAfterLoop(P *Program, fn *ssa.Function, l *Loop, app *ssa.Call) bool {
+	return sortedAfterLoopV(P, fn, l, app)
+}
+
+// sortedAfterLoopV: the slice that v (an append in the loop, or the slice that is stored into there) belongs to is
+// sorted after the loop, before any other use outside it.
+func sortedAfterLoopV(P *Program, fn *ssa.Function, l *Loop, app ssa.Value) bool {
 	sorted := false
 	allInstrs(fn, func(i ssa.Instruction) {
 		c, ok := i.(*ssa.Call)
